@@ -3,6 +3,7 @@ import re
 from ..mir import call_matches, callee_name, op_local
 from ..flow import expr, resolve_place
 from .. import oblrules
+from .c07 import inlined_private, expanded_copies, PathEval, implied, split_call, sub_terms
 
 CLAIM = {
     "text": "Structural and numeric clauses of C10 decided on MIR: the size reported by every view named in the statement flows from "
@@ -57,9 +58,12 @@ def leaf_exprs(body, operand, depth=0, seen=None):
         return [expr(body, operand)]
     p = operand["place"]
     l = p["l"]
-    if p["p"] or l in seen or depth > 8 or 0 < l <= body.arg_count:
+    if p["p"] or l in seen or depth > 16 or 0 < l <= body.arg_count:
         return [expr(body, operand)]
     ds = body.defs_of(l)
+    if len(ds) == 1 and ds[0][1] != "term" and ds[0][2]["k"] == "use" and ds[0][2]["a"]["k"] != "const" and not ds[0][2]["a"]["place"]["p"]:
+        # a plain copy (hoisted local, argument / result of an expanded helper): the leaves are those of the source
+        return leaf_exprs(body, ds[0][2]["a"], depth + 1, seen | {l})
     if len(ds) <= 1:
         return [expr(body, operand)]
     out = []
@@ -80,17 +84,91 @@ def _call_expr(body, t):
 
 
 def sanitized(e, ct, comp=None):
+    """a whole Size term that lies within constraint `ct`"""
+    return size_within(e, ct)
+
+
+_MM = r"(?:Ord|usize|cmp|num|impls)"
+
+
+def size_within(e, ct):
+    """Size-valued term within [ct.min, ct.max] (given ct.min <= ct.max): ct.clamp(x), ct.max(), ct.min(), x.clamp(ct.min, ct.max)"""
     c = re.escape(ct)
-    pats = [
-        r"^BoxConstraint::clamp\(%s, .*\)(\.(height|width))?$" % c,
-        r"^BoxConstraint::max\(%s\)(\.(height|width))?$" % c,
-        r"^(Ord::clamp|usize::clamp|cmp::clamp|num::clamp|impls::clamp)\(.*, (BoxConstraint::min\(%s\)|%s\.min)\.(height|width), (BoxConstraint::max\(%s\)|%s\.max)\.(height|width)\)$" % (c, c, c, c),
-        r"^Size::clamp\(.*, (BoxConstraint::min\(%s\)|%s\.min), (BoxConstraint::max\(%s\)|%s\.max)\)(\.(height|width))?$" % (c, c, c, c),
-    ]
-    for p in pats:
-        if re.match(p, e):
-            return True
+    tc = split_call(e)
+    if tc is None:
+        return e in ("%s.min" % ct, "%s.max" % ct)
+    nm, args = tc
+    if nm == "BoxConstraint::clamp" and len(args) == 2 and args[0] == ct:
+        return True
+    if nm in ("BoxConstraint::max", "BoxConstraint::min") and args == [ct]:
+        return True
+    if nm == "Size::clamp" and len(args) == 3:
+        return bool(re.match(r"^(BoxConstraint::min\(%s\)|%s\.min)$" % (c, c), args[1]) and re.match(r"^(BoxConstraint::max\(%s\)|%s\.max)$" % (c, c), args[2]))
     return False
+
+
+def bounded(e, ct, axis, side, depth=0):
+    """integer term e >= ct.min.<axis> (side 'lo') / e <= ct.max.<axis> (side 'hi'), given ct.min <= ct.max: the constraint's own bounds, a
+    component of a Size within the constraint, clamp(x, lo, hi), and min / max combinations in any nesting or operand order"""
+    if depth > 8:
+        return False
+    own = ("BoxConstraint::min(%s).%s" % (ct, axis), "%s.min.%s" % (ct, axis), "BoxConstraint::max(%s).%s" % (ct, axis), "%s.max.%s" % (ct, axis))
+    if e in own:
+        return True
+    m = re.match(r"^(.*)\.(height|width)$", e)
+    if m and m.group(2) == axis and size_within(m.group(1), ct):
+        return True
+    tc = split_call(e)
+    if tc is None:
+        return False
+    nm, args = tc
+    if re.match(r"^%s::clamp$" % _MM, nm) and len(args) == 3:
+        return bounded(args[1], ct, axis, "lo", depth + 1) if side == "lo" else bounded(args[2], ct, axis, "hi", depth + 1)
+    if re.match(r"^%s::min$" % _MM, nm) and len(args) == 2:
+        r = [bounded(a, ct, axis, side, depth + 1) for a in args]
+        return all(r) if side == "lo" else any(r)
+    if re.match(r"^%s::max$" % _MM, nm) and len(args) == 2:
+        r = [bounded(a, ct, axis, side, depth + 1) for a in args]
+        return any(r) if side == "lo" else all(r)
+    return False
+
+
+def size_new_call(body, t):
+    """is the call terminator Size::new(height, width), with Size::new being the plain constructor?"""
+    if not call_matches(t, r"^terminal::Size::new$") or len(t["args"]) != 2:
+        return False
+    nb = body.prog.body("terminal::Size::new")
+    return nb is not None and expr(nb, {"k": "copy", "place": {"l": 0, "p": []}}) == "Size{height: arg1, width: arg2}"
+
+
+def size_leaves(body, operand, depth=0, seen=frozenset()):
+    """reaching definitions of a Size-valued operand: ("term", canonical term) or ("agg", local, aggregate rvalue) per definition"""
+    if operand["k"] == "const":
+        return [("term", expr(body, operand))]
+    p = operand["place"]
+    l = p["l"]
+    if p["p"] or l in seen or depth > 16 or 0 < l <= body.arg_count:
+        return [("term", expr(body, operand))]
+    ds = body.defs_of(l)
+    if not ds:
+        return [("term", expr(body, operand))]
+    out = []
+    for bb, si, rv in ds:
+        if si != "term" and rv["k"] == "use" and rv["a"]["k"] != "const" and not rv["a"]["place"]["p"]:
+            out += size_leaves(body, rv["a"], depth + 1, seen | {l})
+        elif si != "term" and rv["k"] == "agg" and rv.get("adt") == "terminal::Size":
+            out.append(("agg", l, rv))
+        elif si == "term" and size_new_call(body, rv):
+            out.append(("agg", l, {"fnames": ["height", "width"], "fields": rv["args"]}))       # Size::new(height, width) == Size { height, width }
+        elif len(ds) == 1:
+            out.append(("term", expr(body, operand)))
+        elif si == "term":
+            out.append(("term", _call_expr(body, rv)))
+        elif rv["k"] == "use":
+            out.append(("term", expr(body, rv["a"])))
+        else:
+            out.append(("term", rv["k"]))
+    return out
 
 
 def run(ctx):
@@ -111,10 +189,11 @@ def run(ctx):
     # ---------------- (b) clamp contract --------------------------------------------------------------------
     ctx.rule("CLAMP-CONTRACT", "size reported by the named views flows from clamp(ct)/ct.max()/per-axis clamp on every path", floor=10)
     for path, nm in sorted(list(CLAMPED_VIEWS.items()) + list(FORWARDERS.items())):
-        b = prog.body(path)
-        if b is None:
+        if prog.body(path) is None:
             ctx.anchor("CLAMP-CONTRACT", path)
             continue
+        # private helpers extracted from the layout routine (one axis of the size, the whole size ..) are looked through
+        b = inlined_private(prog, path)
         ct = CT.get(path, "arg3")
         ws = [(bb, t) for bb, t in b.calls() if call_matches(t, r"^view::layout::Layout::with_size$")]
         delegs = [(bb, t) for bb, t in b.calls() if call_matches(t, r"^view::flex::flex_layout$|view::View for str>::layout$")]
@@ -123,35 +202,36 @@ def run(ctx):
             continue
         for bb, t in ws:
             arg = t["args"][1]
-            e = expr(b, arg)
-            ok = sanitized(e, ct)
-            detail = e[:160]
-            if not ok and path in FORWARDERS:
-                m = re.match(r"^Layout::size\((.*)\)$", e)
-                if m:
-                    # the child layout handle must be the one passed to child.layout(ctx, ct, handle) with ct unchanged
-                    kids = [t2 for bb2, t2 in b.calls() if call_matches(t2, r"view::View::layout$|as view::View>::layout$") and expr(b, t2["args"][2]) == ct]
-                    ok = bool(kids)
-            if not ok:
-                # aggregate Size{height, width}: check each component's reaching definitions
-                l = chase_local(b, arg)
-                agg = None
-                for d in b.defs_of(l) if l is not None else []:
-                    if d[1] != "term" and d[2]["k"] == "agg" and d[2].get("adt") == "terminal::Size":
-                        agg = d[2]
-                if agg is not None:
-                    ok = True
-                    parts = []
-                    for fn_, f in zip(agg["fnames"], agg["fields"]):
-                        leaves = leaf_exprs(b, f)
-                        for i2, si2, s2 in b.assigns():
-                            pl = s2["place"]
-                            if pl["l"] == l and len(pl["p"]) == 1 and pl["p"][0]["k"] == "field" and pl["p"][0]["name"] == fn_ and s2["rv"]["k"] == "use":
-                                leaves += leaf_exprs(b, s2["rv"]["a"])
-                        good = all(sanitized(x, ct) and (("." + fn_) in x[-12:] or "Constraint::clamp" in x) for x in leaves)
-                        parts.append((fn_, [x[:90] for x in leaves], good))
-                        ok = ok and good and bool(leaves)
-                    detail = parts
+            # every reaching definition of the reported size (if/else, match, early return, a helper's result): a Size within the
+            # constraint as a whole, or a Size literal each component of which is bounded by the constraint's bounds of the same axis
+            leaves = size_leaves(b, arg)
+            ok = bool(leaves)
+            detail = []
+            for leaf in leaves:
+                if leaf[0] == "term":
+                    e = leaf[1]
+                    good = size_within(e, ct)
+                    if not good and path in FORWARDERS:
+                        m = re.match(r"^Layout::size\((.*)\)$", e)
+                        if m:
+                            # the child layout handle must be the one passed to child.layout(ctx, ct, handle) with ct unchanged
+                            kids = [t2 for bb2, t2 in b.calls() if call_matches(t2, r"view::View::layout$|as view::View>::layout$") and expr(b, t2["args"][2]) == ct]
+                            good = bool(kids)
+                    detail.append(e[:160])
+                    ok = ok and good
+                    continue
+                _, l, agg = leaf
+                for fn_, f in zip(agg["fnames"], agg["fields"]):
+                    comp = leaf_exprs(b, f)
+                    for i2, si2, s2 in b.assigns():
+                        pl = s2["place"]
+                        if pl["l"] == l and len(pl["p"]) == 1 and pl["p"][0]["k"] == "field" and pl["p"][0]["name"] == fn_ and s2["rv"]["k"] == "use":
+                            comp += leaf_exprs(b, s2["rv"]["a"])
+                    good = bool(comp) and all(bounded(x, ct, fn_, "lo") and bounded(x, ct, fn_, "hi") for x in comp)
+                    detail.append((fn_, [x[:90] for x in comp], good))
+                    ok = ok and good
+            if len(detail) == 1:
+                detail = detail[0]
             ctx.instance("CLAMP-CONTRACT", {"view": nm, "size": detail, "ok": ok})
             if not ok:
                 ctx.violation("CLAMP-CONTRACT", path, "unclamped-size", "%s reports a size that is not clamped to its constraint on some path: %s" % (nm, str(detail)[:300]), sites=["%s:%d" % (b.file, t["line"])])
@@ -169,7 +249,9 @@ def run(ctx):
     # ---------------- (c) containment ---------------------------------------------------------------------------
     ctx.rule("CONTAINMENT", "View::render uses its surface only via Layout::apply_to(layout, surf) or forwards it unchanged to one child renderer", floor=24)
     renders = [b for b in prog.bodies if b.impl_trait == "view::View" and b.name == "render"]
-    for b in renders:
+    for b0 in renders:
+        # a private helper the renderer hands its surface to is part of the renderer
+        b = inlined_private(prog, b0.path) or b0
         uses = []
         for bb, t in b.calls():
             for i, a in enumerate(t["args"]):
@@ -234,6 +316,8 @@ def run(ctx):
         for d in b.defs_of(l) if l is not None else []:
             if d[1] != "term" and d[2]["k"] == "agg" and d[2].get("adt") == "terminal::Size":
                 return {fn_: leaf_exprs(b, f) for fn_, f in zip(d[2]["fnames"], d[2]["fields"])}
+            if d[1] == "term" and size_new_call(b, d[2]):
+                return {"height": leaf_exprs(b, d[2]["args"][0]), "width": leaf_exprs(b, d[2]["args"][1])}
         return {"height": [e + ".height"], "width": [e + ".width"]}
 
     def pair_ok(lo_list, hi_list, ctnames):
@@ -254,7 +338,14 @@ def run(ctx):
             return False
         return True
     n_ct = 0
-    for b in prog.bodies:
+    for b0 in prog.bodies:
+        # constructions are judged with private helpers expanded (a helper that builds the child's minimum size, the whole constraint ..):
+        # in the caller's terms; a helper all of whose call sites are expanded is not judged a second time out of context
+        b = b0
+        if b0.file.startswith("src/"):
+            b = inlined_private(prog, b0.path, keep=r"^view::Axis::constraint$") or b0       # Axis::constraint is judged by its own template below
+            if b is b0 and b0.path != "view::Axis::constraint" and any(call_matches(t, r"^view::BoxConstraint::new$") for bb, t in b0.calls()) and expanded_copies(prog, b0.path):
+                continue
         for bb, t in b.calls():
             if call_matches(t, r"^view::BoxConstraint::new$"):
                 n_ct += 1
@@ -291,14 +382,40 @@ def run(ctx):
         valid_ok = False
     if valid_ok:
         # clamp(x, C.min.f, C.max.f) of one constraint C
+        CLAMP_RX = r"impl std::cmp::Ord for usize>::clamp$"
         for b in prog.bodies:
-            k = 0
-            for bb, t in sorted(b.calls(), key=lambda x: (x[1]["line"], x[0])):
-                if call_matches(t, r"impl std::cmp::Ord for usize>::clamp$") and len(t["args"]) == 3:
-                    k += 1
-                    lo, hi = expr(b, t["args"][1]), expr(b, t["args"][2])
-                    if pair_ok([lo], [hi], None) and lo != hi and lo != "0":
-                        lemmas[(b.path, "LIBPRE-clamp-%d" % k)] = ("VALID-CT", "lower/upper bound are min/max of one valid constraint")
+            cl = sorted([(bb, t) for bb, t in b.calls() if call_matches(t, CLAMP_RX) and len(t["args"]) == 3], key=lambda x: (x[1]["line"], x[0]))
+            if not cl:
+                continue
+            good = []
+            for bb, t in cl:
+                lo, hi = expr(b, t["args"][1]), expr(b, t["args"][2])
+                good.append(pair_ok([lo], [hi], None) and lo != hi and lo != "0")
+            if not all(good):
+                # a private helper that clamps with bounds it was handed (`resolve_extent(requested, min, max)`): the bounds are judged at
+                # every expanded copy of the helper in its callers
+                ibs = expanded_copies(prog, b.path)
+                if ibs:
+                    by_bb = sorted(range(len(cl)), key=lambda i: cl[i][0])
+                    seen_copy = [False] * len(cl)
+                    ctxok = [True] * len(cl)
+                    for ib in ibs:
+                        copies = sorted((bb, t) for bb, t in ib.calls() if ib.blocks[bb].get("inl_from") == b.path and call_matches(t, CLAMP_RX) and len(t["args"]) == 3)
+                        if len(copies) % len(cl):
+                            ctxok = [False] * len(cl)
+                            break
+                        for j, (bb, t) in enumerate(copies):
+                            o = by_bb[j % len(cl)]
+                            seen_copy[o] = True
+                            lo, hi = expr(ib, t["args"][1]), expr(ib, t["args"][2])
+                            ctxok[o] = ctxok[o] and pair_ok([lo], [hi], None)
+                    for i in range(len(cl)):
+                        if not good[i] and seen_copy[i] and ctxok[i]:
+                            good[i] = True
+                            ctx.instance("VALID-CT", {"helper": b.path, "clamp": i + 1, "bounds_valid_in_every_expanded_call_site": True, "callers": [x.path for x in ibs]})
+            for i, g in enumerate(good):
+                if g:
+                    lemmas[(b.path, "LIBPRE-clamp-%d" % (i + 1))] = ("VALID-CT", "lower/upper bound are min/max of one valid constraint")
         sc = prog.body("terminal::Size::clamp")
         if sc is not None:
             callers = []
@@ -361,10 +478,15 @@ def run(ctx):
         ok_share = False
         if len(cons) == 1:
             e = expr(fl, cons[0][1]["args"][3])
-            ok_share = re.search(r"f64::round\(Div\(Mul\(cast:IntToFloat\(var:major_remain\), .*flex.*\), var:flex_total\)\)", e) is not None and expr(fl, cons[0][1]["args"][2]) == "0"
-            # the decrement of flex_total must come after the share (the Div statement dominates the Sub statement)
-            divs = [i for i, si, s_ in fl.assigns() if s_["rv"]["k"] == "bin" and s_["rv"]["op"] == "Div" and "flex_total" in expr(fl, s_["rv"]["b"])]
-            subs = [i for i, si, s_ in fl.assigns() if s_["rv"]["k"] == "bin" and s_["rv"]["op"] == "Sub" and expr(fl, s_["rv"]["a"]) == "var:flex_total"]
+            # the locals are identified by their role, not their name: share = round(<remaining> as f64 * <flex> / <total>)
+            msh = re.search(r"f64::round\(Div\(Mul\((.*)\), ((?:var:\w+|_\d+))\)\)", e)
+            total = msh.group(2) if msh else None
+            fac = split_call("Mul(%s)" % msh.group(1))[1] if msh and split_call("Mul(%s)" % msh.group(1)) else []
+            rem = [x for x in fac if re.match(r"^cast:IntToFloat\((var:\w+|_\d+)\)$", x)]
+            ok_share = msh is not None and len(fac) == 2 and len(rem) >= 1 and expr(fl, cons[0][1]["args"][2]) == "0"
+            # the decrement of the total must come after the share (the Div statement dominates the Sub statement)
+            divs = [i for i, si, s_ in fl.assigns() if s_["rv"]["k"] == "bin" and s_["rv"]["op"] == "Div" and total is not None and expr(fl, s_["rv"]["b"]) == total]
+            subs = [i for i, si, s_ in fl.assigns() if s_["rv"]["k"] == "bin" and s_["rv"]["op"] == "Sub" and total is not None and expr(fl, s_["rv"]["a"]) == total]
             ok_share = ok_share and bool(divs) and bool(subs) and all(cfg.dominates(divs[0], x) for x in subs)
         ctx.instance("FLEX-SHAPE", {"share_template": ok_share})
         if ok_share:
@@ -378,18 +500,29 @@ def run(ctx):
     ise = prog.body("terminal::Size::is_empty")
     okd = False
     if szc is not None and ise is not None:
-        cfg = szc.cfg()
         ru = [(bb, t) for bb, t in szc.calls() if call_matches(t, r"size_cells::round_up$")]
-        guard = None
-        for bb, t in szc.calls():
-            if call_matches(t, r"^terminal::Size::is_empty$") and expr(szc, t["args"][0]) == "arg2":
-                tt = szc.blocks[t["t"]]["term"]
-                if tt["k"] == "switch" and tt["vals"] == ["0"]:
-                    guard = (t["t"], tt["targets"][0])
-        ok1 = guard is not None and bool(ru) and all(cfg.edge_dominates(guard[0], guard[1], bb) for bb, t in ru) and all(re.match(r"^arg2\.(height|width)$", expr(szc, t["args"][1])) for bb, t in ru)
+        pe = PathEval(szc)
+        # every way to a round_up(_, d) call knows `!pixels_per_cell.is_empty()` (early return, if/else, match, negated test ..) or d != 0 itself
+        by_pred = bool(ru) and all(pe.always(bb, lambda x, rel, y: rel == "is" and y == "false" and x == "Size::is_empty(arg2)") for bb, t in ru)
+        direct = bool(ru) and all(pe.always(bb, lambda x, rel, y, d=expr(szc, t["args"][1]): (rel == "!=" and {x, y} == {"0", d}) or (rel == "<" and x == "0" and y == d)) for bb, t in ru)
+        ok1 = (by_pred or direct) and all(re.match(r"^arg2\.(height|width)$", expr(szc, t["args"][1])) for bb, t in ru)
         # is_empty: both comparisons with 0 and result true if either is 0
-        eqs = sorted(expr(ise, s_["rv"]["a"]) + "==" + expr(ise, s_["rv"]["b"]) for i, si, s_ in ise.assigns() if s_["rv"]["k"] == "bin" and s_["rv"]["op"] == "Eq")
-        ok2 = eqs in (["arg1.height==0", "arg1.width==0"], ["Mul(arg1.height, arg1.width)==0"], ["Mul(arg1.width, arg1.height)==0"])
+        eqs = sorted("==".join(sorted((expr(ise, s_["rv"]["a"]), expr(ise, s_["rv"]["b"])), reverse=True)) for i, si, s_ in ise.assigns() if s_["rv"]["k"] == "bin" and s_["rv"]["op"] == "Eq")
+        # meaning of is_empty: whenever it returns false, height != 0 and width != 0 (|| or &-negations, match, h * w == 0 ..)
+        ipe = PathEval(ise)
+        ok2 = True
+        n_ret = 0
+        for rb_ in ise.cfg().returns:
+            for facts, env in ipe.at(rb_) or [(frozenset(), {0: None})]:
+                v = env.get(0)
+                if v is not None and v[0] == "c" and v[1] == 1:
+                    continue
+                n_ret += 1
+                f2 = set(facts) | set(implied(v, False))
+                nz = lambda d: ("0", "!=", d) in f2 or ("0", "<", d) in f2
+                if not ((nz("arg1.height") and nz("arg1.width")) or nz("Mul(arg1.height, arg1.width)") or nz("Mul(arg1.width, arg1.height)")):
+                    ok2 = False
+        ok2 = direct or (ok2 and n_ret > 0)
         ctx.instance("DIV-GUARD", {"round_up_calls_guarded_by_not_is_empty": ok1})
         ctx.instance("DIV-GUARD", {"is_empty_tests": eqs, "ok": ok2})
         okd = ok1 and ok2
@@ -406,8 +539,34 @@ def run(ctx):
     def scope(b):
         return b.file.startswith("src/view/") or b.file in ("src/glyph.rs", "src/image.rs", "src/render.rs", "src/terminal.rs")
 
+    KINDS = {"OVF", "DIV0", "BOUNDS", "BOUNDSCALL", "RANGEIDX", "UNWRAP", "PANIC", "LIBPRE", "MAPIDX", "UNSAFE", "ASSERT"}
+    # PATH-GUARD: `a - b` in a routine whose test `b <= a` was extracted into a private helper: the interpreter analyses the routine and the
+    # helper separately and loses the relation; with the helper expanded in place the subtraction is reached only on paths that know b <= a
+    # (path facts are dropped at writes to the places involved and at loop heads)
+    from .. import obligations as _obl
+    dyn0, _init0 = prog.callgraph().reach_split([e for e in entries if prog.body(e) is not None])
+    for p_ in sorted(dyn0):
+        b = prog.body(p_)
+        if b is None or not scope(b) or b.kind == "Closure":
+            continue
+        ib = inlined_private(prog, p_) or b
+        if ib is b and len(b.blocks) > 150:
+            continue
+        obs = [o for o in _obl.collect(b, lossy=False, unsafe=True) if not o.exp and o.kind in KINDS]
+        subs = [o for o in obs if o.kind == "OVF" and o.sub == "Sub" and o.term.get("k") == "assert" and isinstance(o.term["msg"].get("a"), dict) and isinstance(o.term["msg"].get("b"), dict)]
+        if not subs:
+            continue
+        keys = oblrules.site_keys(obs)
+        res = PathEval(ib).at({o.bb for o in subs})
+        if res is None:
+            continue
+        for o in subs:
+            a_t, b_t = expr(ib, o.term["msg"]["a"]), expr(ib, o.term["msg"]["b"])
+            ps = res.get(o.bb) or []
+            if ps and all(any(rel in ("<", "<=") and x == b_t and y == a_t for (x, rel, y) in facts) for facts, env in ps):
+                lemmas.setdefault((p_, keys[id(o)]), ("PATH-GUARD", "%s <= %s on every feasible path to the subtraction (the test is a bool local / made by a private helper, expanded in place)" % (b_t[:60], a_t[:60])))
     outs, dyn, init = oblrules.run(ctx, "TOTAL", entries, lossy=False, lemmas=lemmas, trusts=trusts, scope=scope, floor_bodies=20,
-                                   kinds={"OVF", "DIV0", "BOUNDS", "BOUNDSCALL", "RANGEIDX", "UNWRAP", "PANIC", "LIBPRE", "MAPIDX", "UNSAFE", "ASSERT"},
+                                   kinds=KINDS,
                                    assume_filter=lambda b, o: ("SIZE-BOUND", "sizes are below 2^31") if (o.kind == "OVF" and o.sub in ("Add", "Mul", "Add-call", "Mul-call") and _usize_op(b, o)) else None,
                                    skip=lambda b: b.file == "src/surface.rs" and b.name == "view_bounds",
                                    desc="no reachable panic/overflow/bounds/unwrap/precondition failure in view layout and rendering")
@@ -515,6 +674,7 @@ def hit_test(ctx):
         ctx.anchor(R, "Layout::apply_to / FindPath::next")
         return
     # --- painted rectangle --------------------------------------------------------------------
+    ap = inlined_private(prog, ap.path) or ap
     views = [(bb, t) for bb, t in ap.calls() if call_matches(t, r"^surface::Shape::view$|::view_mut$|::view$")]
     want_rows = "Range{start: arg1.pos.row, end: Add(arg1.pos.row, arg1.size.height)}"
     want_cols = "Range{start: arg1.pos.col, end: Add(arg1.pos.col, arg1.size.width)}"
@@ -529,6 +689,7 @@ def hit_test(ctx):
             ctx.violation(R, ap.path, "rect", "Layout::apply_to paints rows %s / cols %s instead of pos.row..pos.row+height / pos.col..pos.col+width" % tuple(args),
                           sites=["%s:%d" % (ap.file, t["line"])])
     # --- descent ------------------------------------------------------------------------------------
+    fp = inlined_private(prog, fp.path) or fp      # a containment predicate extracted into a helper is part of the routine
     cfg = fp.cfg()
     desc = [(bb, t) for bb, t in fp.calls() if call_matches(t, r"Option::<T>::replace$|Option::<T>::insert$") and expr(fp, t["args"][0]) == "arg1.current"]
     if len(desc) != 1:
@@ -542,23 +703,19 @@ def hit_test(ctx):
         return
     D, dt = desc[0]
     child_id = expr(fp, dt["args"][1])
-    facts_ = set()
-    guards = []
-    for x in range(len(fp.blocks)):
-        t = fp.blocks[x]["term"]
-        if t["k"] != "switch" or not cfg.dominates(x, D) or x == D:
-            continue
-        e = expr(fp, t["d"])
-        succs = [(v, tg) for v, tg in zip(t["vals"], t["targets"])] + [(None, t["otherwise"])]
-        taken = [(v, tg) for v, tg in succs if cfg.edge_dominates(x, tg, D)]
-        if len(taken) != 1:
-            continue
-        v, tg = taken[0]
-        truth = (v != "0") if v is not None else ("0" in t["vals"])
-        f = _cmp_fact(e, truth)
-        if f is not None:
-            facts_.add(f)
-            guards.append((x, tg))
+    pe = PathEval(fp)
+
+    def common_facts(bb):
+        """ordering facts that hold on every way to bb ('a<=b' / 'a<b' with sums in canonical operand order); None = not enumerable"""
+        paths = pe.at(bb, at_entry=True)
+        if not paths:
+            return None
+        sets = [{"%s%s%s" % (_norm_add(x), rel, _norm_add(y)) for (x, rel, y) in facts if rel in ("<", "<=")} for facts, env in paths]
+        return set.intersection(*sets)
+    facts_ = common_facts(D)
+    if facts_ is None:
+        ctx.anchor(R, "find_path/paths", "the ways into the descent cannot be enumerated")
+        return
     # the child layout prefix: store[<idx>].value with idx == child_id.0
     m = None
     for f in sorted(facts_):
@@ -591,25 +748,32 @@ def hit_test(ctx):
     aggs = [expr(fp, {"k": "copy", "place": st["place"]}) for i, si, st in fp.assigns() if st["rv"]["k"] == "agg" and st["rv"].get("adt") == "terminal::Position"]
     want_reb = "Position{row: Sub(%s.row, %s.pos.row), col: Sub(%s.col, %s.pos.col)}" % (P, C, P, C)
     stored = [i for i, si, st in fp.assigns() if resolve_place(fp, st["place"]) == "(*_1).pos"]
-    ok = aggs == [want_reb] and len(stored) == 1 and (cfg.dominates(stored[0], D) or cfg.dominates(D, stored[0])) and all(cfg.edge_dominates(x, y, stored[0]) for x, y in guards)
+    ok = aggs == [want_reb] and len(stored) == 1 and (cfg.dominates(stored[0], D) or cfg.dominates(D, stored[0])) and set(want) <= (common_facts(stored[0]) or set())
     ctx.instance(R, {"rebased_position": aggs, "expected": want_reb, "ok": bool(ok)})
     if not ok:
         ctx.violation(R, fp.path, "rebase", "on descent the position must become (row - child.pos.row, col - child.pos.col); found %s" % aggs, sites=[fp.loc])
-    # sibling advance: every failing comparison reaches the statement `child_id_opt = store[child].sibling` without passing the descent
+    # sibling advance: a child that is looked at is either descended into or followed by its sibling: every feasible way from the entry to a
+    # return that enters the loop over the children passes the descent, unless it went round through `child = store[child].sibling`
+    # (those ways are cyclic and re-enter the loop test).  Judged on feasible paths, so a test spelled as a helper's bool, a `continue`
+    # under the negated test or a `&&` chain are the same thing; leaving the loop on a failed test (`break`, `return`) is what is excluded.
     adv = [i for i, si, st in fp.assigns() if re.fullmatch(r"arg1\.store\[_\d+\]\.sibling", expr(fp, st["rv"]["a"]) if st["rv"]["k"] == "use" else "")]
     ok = False
     if adv:
         A = adv[0]
-        ok = True
-        for x in range(len(fp.blocks)):
-            t = fp.blocks[x]["term"]
-            if t["k"] != "switch" or not cfg.dominates(x, D) or _cmp_fact(expr(fp, t["d"]), True) is None:
-                continue
-            for tg in set(t["targets"] + [t["otherwise"]]):
-                if cfg.edge_dominates(x, tg, D):
-                    continue
-                if not cfg.must_pass([A], cfg.returns, tg)[0]:
+        loops = cfg.loops()
+        hs = [h for h, body_ in loops.items() if A in body_]
+        if hs:
+            h = min(hs, key=lambda x: len(loops[x]))
+            inside = set(loops[h]) - {h}
+            ok = bool(cfg.returns)
+            for r_ in cfg.returns:
+                ps = pe.at(r_, with_blocks=True)
+                if ps is None:
                     ok = False
+                    break
+                for facts, env, blocks in ps:
+                    if (blocks & inside) and D not in blocks:
+                        ok = False
     ctx.instance(R, {"failed_test_advances_to_sibling": ok})
     if not ok:
         ctx.violation(R, fp.path, "sibling", "a child whose rectangle does not contain the position must be followed by its sibling (`child = store[child].sibling`)", sites=[fp.loc])
